@@ -238,6 +238,166 @@ def replay_sequence(c):
     return bad
 
 
+# ----------------------------------------------------------------------------- a view as the sole modelling object
+
+SOLE_KINDS_VEC = ["c@r", "r.sum()", "r.dot(r)", "norm(r)", "(r**2).sum()", "c@r|r.dot(r)", "elementwise"]
+SOLE_KINDS_MAT = ["M.sum()", "frobenius", "(M*M).sum()", "elementwise"]
+SOLE_KINDS_VAR = ["x", "(x-a)**2"]
+
+
+def sole_problem(recipe, kind, relax=False):
+    """a problem written ONLY on the handle `recipe` builds (no other variable), through vector-/matrix-level
+    nodes — so that every shortcut of `Problem.variables` for single-source models is taken — or element-wise.
+    `relax`: every domain attribute (elements and containers) set to "continuous" after construction."""
+    import numpy as np
+
+    from optyx import MatrixVariable, Problem, VectorVariable
+    from optyx.core.matrices import frobenius_norm
+    from optyx.core.vectors import norm
+
+    memo = {}
+    h = hd.build_handle(recipe, memo)
+    if relax:
+        for obj in memo.values():
+            for v in hd.handle_elements(obj):
+                v.domain = "continuous"
+            if hasattr(obj, "domain"):
+                obj.domain = "continuous"
+    P = Problem()
+    if isinstance(h, VectorVariable):
+        n = len(h)
+        c = np.array([float(1 + i % 3) for i in range(n)])
+        if kind == "c@r":
+            P.maximize(c @ h).subject_to(h.sum() <= 2.5)
+        elif kind == "r.sum()":
+            P.minimize(h.sum())
+        elif kind == "r.dot(r)":
+            P.minimize(h.dot(h)).subject_to(h.sum() >= 0.5)
+        elif kind == "norm(r)":
+            P.minimize(norm(h)).subject_to(c @ h >= 1.0)
+        elif kind == "(r**2).sum()":
+            P.maximize(-1.0 * (h ** 2).sum())
+        elif kind == "c@r|r.dot(r)":
+            P.minimize(c @ h).subject_to(h.dot(h) <= 4.0)
+        else:
+            e = h[0] * 1.0
+            for i in range(1, n):
+                e = e + float(1 + i) * h[i]
+            P.minimize(e)
+    elif isinstance(h, MatrixVariable):
+        if kind == "M.sum()":
+            P.minimize(h.sum())
+        elif kind == "frobenius":
+            P.minimize(frobenius_norm(h))
+        elif kind == "(M*M).sum()":
+            P.maximize(-1.0 * (h * h).sum())
+        else:
+            e = None
+            for v in hd.handle_elements(h):
+                e = v if e is None else e + v
+            P.minimize(e)
+    else:
+        P.minimize(h) if kind == "x" else P.minimize((h - 0.25) ** 2)
+    return P, h
+
+
+def view_signature(r):
+    """(route kinds along the recipe, step class of every slice in it): one representative per signature
+    makes sure that unit, strided and reversed slices, rows / columns / blocks / transposes each occur"""
+    sig = []
+    while True:
+        steps = []
+        for part in r[1:]:
+            if isinstance(part, tuple) and len(part) == 3 and not isinstance(part[0], (str, tuple)):
+                st = part[2]
+                steps.append("unit" if st in (None, 1) else "reversed" if st < 0 else "strided")
+        sig.append((r[0], tuple(steps)))
+        if r[0] in ("var", "vec", "mat"):
+            sig.append(r[-2] if r[0] == "mat" else r[-1])
+            if r[0] == "mat":
+                sig.append(r[-1])
+            break
+        r = r[1]
+    return tuple(sig)
+
+
+def pick_views(recs, per=1):
+    out, seen = [], {}
+    for r in recs:
+        k = view_signature(r)
+        seen[k] = seen.get(k, 0) + 1
+        if seen[k] <= per:
+            out.append(r)
+    return out
+
+
+def sole_kinds(h):
+    from optyx import MatrixVariable, VectorVariable
+
+    return SOLE_KINDS_VEC if isinstance(h, VectorVariable) else SOLE_KINDS_MAT if isinstance(h, MatrixVariable) else SOLE_KINDS_VAR
+
+
+def sole_view_cases(rep, rng, recs, thorough, with_model=True, every=False):
+    """every declaration route × view as the only modelling object × vector-level / element-wise writing ×
+    method × strict: the guard must act (raise naming exactly the non-continuous variables / warn naming them)
+    before any solver call"""
+    lines, metas = [], []
+    i = 0
+    for r in recs:
+        b = hd.base_of(r)
+        dom = b[-2] if b[0] == "mat" else b[-1]
+        if dom == "continuous" and not every:
+            if i % 7:
+                i += 1
+                continue
+        try:
+            kinds = sole_kinds(hd.build_handle(r))
+        except Exception:  # noqa: BLE001
+            continue
+        for ki, kind in enumerate(kinds):
+            for mi, method in enumerate(METHODS):
+                for strict in (True, False):
+                    i += 1
+                    if not (thorough or every) and (ki + mi + i // 2) % 6:
+                        continue
+                    try:
+                        P, h = sole_problem(r, kind)
+                        D = domain_set(P)
+                    except Exception:  # noqa: BLE001 - a node that does not accept this handle: not a C18 matter
+                        rep.skipped["sole:unbuildable"] = rep.skipped.get("sole:unbuildable", 0) + 1
+                        continue
+                    variant = (i // 3) % 3
+                    r1, r2 = results_for(P, variant)
+                    lr = base.LRes(True, 0, [0.5] * len(P.variables), 1.0, 3)
+                    if with_model:
+                        lines.append(base.model_line("solve", P, method, strict, True, None, r1, r2, lr, None))
+                    text, info = base.observe(P, "solve", method, strict, True, None, r1, r2, lr)
+                    meta = {"recipe": r, "kind": kind, "call": "solve", "method": method, "strict": strict,
+                            "variant": variant, "sole": True}
+                    metas.append((meta, text))
+                    bad = judge(meta, text, info, D, dom)
+                    if bad is None and D and not strict and not text.startswith("raise"):
+                        P2, _ = sole_problem(r, kind, relax=True)
+                        text2, _ = base.observe(P2, "solve", method, False, True, None, r1, r2, lr)
+                        if strip_warn(text) != text2:
+                            bad = {"what": "solver inputs / solution differ from those of the continuous relaxation",
+                                   "with_domains": strip_warn(text)[:500], "relaxed": text2[:500]}
+                    if bad is not None:
+                        bad.update({"kind_of_case": "sole", "case": meta})
+                        rep.oracle_failures.append(bad)
+    rep.evaluations += len(metas)
+    outs = run_lean_unit(lines) if with_model else []
+    for (meta, text), model in zip(metas, outs):
+        if text != model:
+            rep.corr_mismatches.append({"case": meta, "impl": text[:700], "model": model[:700]})
+    for meta, text in metas:
+        k = f"sole:{meta['recipe'][0]}:{meta['kind']}:{'strict' if meta['strict'] else 'relax'}:" + (
+            text.split(":")[1].split(" ")[0] if text.startswith("raise") else "returns")
+        rep.histogram[k] = rep.histogram.get(k, 0) + 1
+        if "warn-relax" in text or "IntegerVariableError" in text:
+            rep.nontrivial.add(hash(("sole", meta["recipe"], meta["kind"], meta["method"], meta["strict"])))
+
+
 def strip_warn(text):
     out, events, state = text.split(" | ")
     depth, cur, evs = 0, "", []
@@ -292,7 +452,7 @@ def judge(meta, text, info, D, dom):
                         "listed": list(exc.variable_names or []), "expected": D}
             return None
         lp_forced = meta["method"] in (None, "linprog", "highs", "highs-ds", "highs-ipm") or meta["call"] == "solve-lp"
-        if name == "NonLinearError" and lp_forced and meta["kind"].startswith("nl"):
+        if name == "NonLinearError" and lp_forced and (meta["kind"].startswith("nl") or meta.get("sole")):
             return None
         return {"what": f"strict=True raised {name} instead of IntegerVariableError", "observed": text[:400]}
     # non-strict
@@ -368,6 +528,7 @@ def run(ctx) -> core.Report:
         if thorough or per[key] <= (3 if dom != "continuous" else 1):
             guard_recs.append(r)
     guard_cases(rep, rng, guard_recs, thorough)
+    sole_view_cases(rep, rng, pick_views(recs, 3 if thorough else 1), thorough)
     sequence_cases(rep, rng, guard_recs, thorough)
     rep.exhaustive = True
     return rep
@@ -376,6 +537,25 @@ def run(ctx) -> core.Report:
 def search(ctx, rep):
     rng = core.Rng(ctx["seed"] + 32452843)
     r2 = core.Report()
+    # first: every case on which model and implementation disagreed in this run becomes an oracle check —
+    # a handle whose description differs is used as the sole modelling object of problems (all writings ×
+    # all methods × strict); a disagreeing solve is re-observed and judged
+    seen = set()
+    for m in rep.corr_mismatches:
+        c = m.get("case", {})
+        rcp = _tup(c.get("handle") or c.get("recipe") or ())
+        if not rcp or rcp in seen:
+            continue
+        seen.add(rcp)
+        try:
+            hd.build_handle(rcp)
+        except Exception:  # noqa: BLE001
+            continue
+        sole_view_cases(r2, rng, [rcp], False, with_model=False, every=True)
+        if r2.oracle_failures:
+            return r2.oracle_failures[0]
+        if len(seen) >= 40:
+            break
     recs = route_recipes(rng, False)
     bounds_cases(r2, recs)
     if r2.oracle_failures:
@@ -423,6 +603,23 @@ def replay(payload) -> bool:
         bounds_cases(rep, [_tup(f["recipe"])])
         print(rep.oracle_failures)
         return not rep.oracle_failures
+    if f.get("kind_of_case") == "sole":
+        c = f["case"]
+        r = _tup(c["recipe"])
+        P, _ = sole_problem(r, c["kind"])
+        r1, r2 = results_for(P, c["variant"])
+        lr = base.LRes(True, 0, [0.5] * len(P.variables), 1.0, 3)
+        text, info = base.observe(P, "solve", c["method"], c["strict"], True, None, r1, r2, lr)
+        print(text)
+        b = hd.base_of(r)
+        bad = judge(c, text, info, domain_set(P), b[-2] if b[0] == "mat" else b[-1])
+        if bad is None and domain_set(P) and not c["strict"] and not text.startswith("raise"):
+            P2, _ = sole_problem(r, c["kind"], relax=True)
+            text2, _ = base.observe(P2, "solve", c["method"], False, True, None, r1, r2, lr)
+            if strip_warn(text) != text2:
+                bad = {"what": "differs from the continuous relaxation", "relaxed": text2}
+        print(bad)
+        return bad is None
     if f.get("kind_of_case") == "sequence":
         bad = replay_sequence(f["case"])
         print(bad)
